@@ -121,6 +121,7 @@ type Sched interface {
 }
 
 type Server struct {
+	DeadConnErr error // see conn.deadErr
 	mu            sync.Mutex
 	cond          *sync.Cond
 	Addr          string
